@@ -22,7 +22,7 @@ import (
 
 // the two parameter sets of vCheapCfg, computed with x/crypto directly (independent oracle)
 func vDigest(agentName string, set uint, salt, pw []byte) []byte {
-	if set == 2 {
+	if set == 2 || set == 3 {
 		return argon2.IDKey(pw, salt, 1, 8, 1, 16)
 	}
 	key := sha256.Sum256([]byte(agentName))
@@ -118,8 +118,9 @@ func suiteV12(c *vctx) {
 	n = max(n/c.nshards, 2)
 	for i := 0; i < n; i++ {
 		mode := []string{"", "local", "local", "remote"}[r.Intn(4)]
-		dflt := 1 + r.Intn(2)
-		other := uint(3 - dflt)
+		dflt := 1 + r.Intn(3)
+		others := map[int][]uint{1: {2, 3}, 2: {1, 3, 3}, 3: {1, 2, 2}}[dflt]
+		other := others[r.Intn(len(others))]
 		name := fmt.Sprintf("up%d", i)
 		var master *vAgent
 		var masterDown int32
@@ -193,7 +194,7 @@ func suiteV12(c *vctx) {
 				os.Symlink(xdev, filepath.Join(a.dirPath, ".tmp"))
 			}
 		}
-		cfgTok := fmt.Sprintf("%d;1:%s,2:%s", dflt, vxs("hmac_sha256_scrypt"), vxs("argon2id"))
+		cfgTok := fmt.Sprintf("%d;1:%s,2:%s,3:%s", dflt, vxs("hmac_sha256_scrypt"), vxs("argon2id"), vxs("argon2id"))
 		// saturation prelude (local mode): logins with upgradeable hashes are served while the update
 		// queue is full, so that their upgrade requests are dropped. Nothing may remember that: on
 		// the idle agent afterwards the next login must upgrade (checked by the loop below, which
